@@ -401,7 +401,7 @@ B("C17.legend_cut_line_endings", ["C16", "C17", "C01"], CB, "bounded_legend_cut_
   "the legend is never drawn, the drawing before it is untouched, the rules come out in order, and CRLF input gives the same cells and rules as LF",
   "6 drawings (incl. box-drawing and wide characters) x 5 legends (incl. blank lines inside) x 4 trailing-blank variants x {LF, CRLF}")
 B("C16.tag_grammar", ["C16", "C08"], UTIL, "bounded_tag_grammar", "parser::parse_css_tag", "'{ident(,ident)*}' accepted with its names; 12 malformed variants rejected", "5 + 13 strings")
-B("T6.string_and_cell_buffer", ["C04", "C17"], CB, "bounded_string_and_cell_buffer", "From<&str> for StringBuffer / From<StringBuffer> for CellBuffer",
+B("T6.string_and_cell_buffer", ["C04", "C17", "C10"], CB, "bounded_string_and_cell_buffer", "From<&str> for StringBuffer / From<StringBuffer> for CellBuffer",
   "cells = the non-blank characters at the column where their display columns start (wide = 2 columns); LF/CRLF, trailing blanks and blank lines add nothing",
   "first row: all strings of <= 4 (thorough 5) tokens over {a, e-acute, wide CJK, space, -, TAB} x 3 second rows x {LF, CRLF} x 4 trailing-blank variants")
 
